@@ -359,6 +359,9 @@ def random_decl(rng, did, nmin=3, nmax=7, p_async=0.45, p_fallible=0.3, construc
                 sname = 'S%d' % scount[0]
                 scount[0] += 1
                 f1, f2 = new_type(), new_type()
+                for ft_ in (f1, f2):
+                    if rng.random() < 0.4:
+                        types[ft_]['alias'] = True      # field types declared as aliases
                 types[sname] = {'form': rng.choice(['ptr', 'val']), 'fields': [['Fa', f1], ['Fb', f2]]}
                 groups.append([sname])
                 pending_struct.append(sname)
